@@ -1,8 +1,15 @@
 """C08 — individual FS methods are linearizable under concurrent use.
 
-Theorems: lean/FsProofs/C08.lean (table theorems over the GENERATED lock table + the MemoryFS
-statement) and lean/FsProofs/C08Model.lean (any number of single-locked calls are linearizable
-and never deadlock; counterexamples; LRUCache).
+Theorems: lean/FsProofs/C08.lean (table theorems over the GENERATED lock table, the FULL MemoryFS
+statement `memoryfs_linearizable`, `…_repaired` regression theorems) and
+lean/FsProofs/C08Model.lean (any number of single-locked calls are linearizable and never
+deadlock; counterexamples of the lock-free variants; LRUCache).
+
+The races fixed in /repo (MemoryFS.removedir, FS.readbytes/writebytes, FS.move) are ordinary
+explored cases (DIRECTED): a violation if they return.  Known findings come from
+known_findings.json through `rep.match_known` only; their signature is computed from the generated
+lock table (the method of the call set that the table classifies as several atomic pieces, or
+the "own lock does not cover the delegated/primitive calls" structure of MountFS / MultiFS / OSFS).
 
 Run-time parts (harness/sched.py = deterministic scheduler over REAL threads):
 
@@ -66,6 +73,11 @@ def call_op(f, op):
             v = "info:%s:%d:%d" % (hx(i.name), i.is_dir, 0 if i.is_dir else i.size)
         elif name == "readbytes":
             v = "bytes:" + hx(f.readbytes(op[1]))
+        elif name == "readtext":
+            v = "text:" + hx(f.readtext(op[1]))
+        elif name == "writetext":
+            f.writetext(op[1], op[2])
+            v = "unit"
         elif name == "makedir":
             f.makedir(op[1], recreate=op[2])
             v = "unit"
@@ -292,7 +304,7 @@ _SHAPES = {}
 
 
 def load_shapes(drv):
-    methods = sorted({"exists", "isdir", "isfile", "listdir", "getsize", "gettype", "isempty", "getinfo", "readbytes",
+    methods = sorted({"readtext", "writetext", "exists", "isdir", "isfile", "listdir", "getsize", "gettype", "isempty", "getinfo", "readbytes",
                       "makedir", "makedirs", "writebytes", "appendbytes", "create", "touch", "settimes", "openbin",
                       "remove", "removedir", "removetree", "move", "copy", "movedir", "copydir"})
     classes = ["MemoryFS", "OSFS", "MountFS", "MultiFS", "SubFS"]
@@ -338,6 +350,13 @@ def signature(kind, calls, status):
         if "singleLocked" in shapes and any(x != "singleLocked" for x in shapes):
             return "C08/known/%s-own-lock-does-not-cover-%s" % (
                 comp, "its-unlocked-primitives" if kind == "os" else "delegated-calls")
+    if kind == "sub2":
+        # a compound default that WrapFS does not override (today: writetext) runs under the lock of
+        # the SubFS *view* it was called on; every view has its own lock and the other methods
+        # delegate under the parent's lock, so nothing excludes it - not even a second call of itself
+        shapes = [(_SHAPES.get(("SubFS", op[0])) or ["?"])[0] for op in calls]
+        if "singleLocked" in shapes:
+            return "C08/known/SubFS-own-lock-does-not-cover-delegated-calls"
     return None
 
 
@@ -419,6 +438,15 @@ DIRECTED = [
     ("same", [("D", "p"), ("F", "p/f", b"1")], (("movedir", "p", "q", True), ("writebytes", "p/n", b"2"))),
     ("same", [("D", "p"), ("F", "p/f", b"1")], (("removetree", "p"), ("appendbytes", "p/f", b"2"))),
     ("same", [("D", "p"), ("F", "p/f", b"1")], (("copydir", "p", "q", True), ("remove", "p/f"))),
+]
+
+
+# text I/O is outside the model's operation language (Ref.Op): explored at line level only
+TEXT_DIRECTED = [
+    ("same", [], (("writetext", "f", "a"), ("writetext", "f", "bc"))),
+    ("same", [("F", "f", b"old")], (("readtext", "f"), ("writetext", "f", "new"))),
+    ("same", [("F", "f", b"old")], (("readtext", "f"), ("writebytes", "f", b"new"))),
+    ("same", [("F", "f", b"old")], (("readbytes", "f"), ("writetext", "f", "new"))),
 ]
 
 
@@ -801,7 +829,7 @@ def lru_part(rep, drv, tier, rng):
                 rep.nontrivial("lru", repr(init), repr(sch), raised)
     # the callers: two threads matching the same pattern; the answer must be the sequential one
     cases = lru_caller_cases()
-    budget = 150 if tier == "quick" else 1500
+    budget = 110 if tier == "quick" else 1500
     for name, mod, fn, want in cases:
         for warm in (False, True):
             stack = [[0], [1]]
@@ -854,22 +882,8 @@ def report(rep, case, note, found_input, signature=None):
     return rep.violation(case, note, found_input=found_input, signature=signature)
 
 
-def load_additions(rep):
-    """open findings proposed by this package (findings/known_findings_additions.json) count as
-    known until they are merged into known_findings.json"""
-    import json
-
-    path = os.path.join(vlib.VERIF, "findings", "known_findings_additions.json")
-    if os.path.exists(path):
-        have = {f["signature"] for f in rep.open_findings}
-        for f in json.load(open(path)):
-            if f.get("property") == "C08" and f["signature"] not in have:
-                rep.open_findings.append(f)
-
-
 def run(rep, tier, seed, deep=False):
     _REPORTED.clear()
-    load_additions(rep)
     rep.rule = ("C08: for concurrent calls on one filesystem object, under every explored interleaving (preemption before "
                 "every line of library code and at every lock acquire/release) per-call results and the final tree equal "
                 "those of some sequential order of the same calls; no deadlock; no foreign exception")
@@ -895,7 +909,7 @@ def run(rep, tier, seed, deep=False):
 
         # ---- directed cases: model interleavings, then line-level exploration on every backend
         model_correspondence(rep, drv, impl, DIRECTED, "directed")
-        for rel, tree, calls in DIRECTED:
+        for rel, tree, calls in DIRECTED + TEXT_DIRECTED:
             for kind in KINDS:
                 t = shift_tree(kind, tree)
                 c = shift_calls(kind, calls)
@@ -904,7 +918,7 @@ def run(rep, tier, seed, deep=False):
                         label="/directed")
 
         # ---- (i) model <-> code on the whole pair matrix (MemoryFS)
-        n_i = len(sets) if thorough else 700
+        n_i = len(sets) if thorough else 500
         chosen = sets if n_i >= len(sets) else rng.sample(sets, n_i)
         model_correspondence(rep, drv, impl, chosen, "matrix")
 
@@ -913,13 +927,13 @@ def run(rep, tier, seed, deep=False):
             plan = [("mem", 220, 2, 1, 200), ("sub2", 50, 1, 1, 100), ("mount", 50, 1, 1, 100),
                     ("multi", 50, 1, 1, 100), ("os", 40, 1, 1, 100)]
         else:
-            plan = [("mem", 60, 1, 0, 60), ("sub2", 12, 1, 0, 40), ("mount", 12, 1, 0, 40), ("multi", 12, 1, 0, 40),
-                    ("os", 10, 1, 0, 40)]
+            plan = [("mem", 45, 1, 0, 50), ("sub2", 9, 1, 0, 40), ("mount", 9, 1, 0, 40), ("multi", 9, 1, 0, 40),
+                    ("os", 8, 1, 0, 40)]
         for kind, n_sets, bound, level, budget in plan:
             for rel, tree, calls in rng.sample(sets, min(n_sets, len(sets))):
                 explore(rep, kind, rel, shift_tree(kind, tree), shift_calls(kind, calls), bound, level, budget, rng=rng)
         # triples (random schedules beyond the bound)
-        for _ in range(40 if thorough else 8):
+        for _ in range(40 if thorough else 6):
             a, b = rng.sample(sets, 2)
             calls = (a[2][0], a[2][1], b[2][0])
             explore(rep, "mem", "triple", TREE0, calls, bound=2, level=0, budget=120 if thorough else 25, rng=rng,
